@@ -41,6 +41,13 @@ def run(model, res, tier):
     res.rule('RX', 'where a function answers "an error rather than a value" by raising, the catch-all of parse() turns every exception class into #ERROR! (shared with C01.R1)')
     from . import c01 as _c01
     H.borrow(res, 'RX', 'catch-all of parse()', lambda tmp: _c01.catch_all_rule(model, tmp, c))
+    res.rule('R6', 'the array a lookup function receives for a range is the block between its top-left and bottom-right corners, whichever '
+             'two corners were written (range payload: min/max corners per axis; shared with C10.R4)')
+
+    def _corners(tmp):
+        from . import c10
+        c10._r4({'model': model, 'c': c, 'res': tmp, 'cbs': c10.callbacks(c)})
+    H.borrow(res, 'R6', 'range corners', _corners)
     purity.check_region(res, c, 'R5', None, region, 'a lookup function')
     purity.check_memo(res, c, 'R5', region, 'a lookup function')
 
